@@ -284,3 +284,14 @@ func VerifOpaqueKey(tag []byte, private bool) *ExtendedKey {
 }
 
 func (k *ExtendedKey) VerifTag() []byte { return k.key }
+
+// VerifNeuterStub, when set and the cut "hdNeuter" is active, replaces Neuter (used with VerifChildStub: the real
+// Neuter would replace a path tag by a curve value).
+var VerifNeuterStub func(k *ExtendedKey) (*ExtendedKey, error)
+
+func (k *ExtendedKey) Neuter() (*ExtendedKey, error) {
+	if rt.CutActive("hdNeuter") && VerifNeuterStub != nil {
+		return VerifNeuterStub(k)
+	}
+	return k.Neuter__real()
+}
